@@ -293,7 +293,10 @@ class C18(core.Check):
                 if c < 0.15 or not paths:
                     pth, x, out = r.choice(self.all_paths(model)), model, []
                     for p_ in pth:  # vary letter case only where the containing dict is a Mapfile dict
-                        out.append(self.case_key(r, p_, x) if isinstance(p_, str) else p_)
+                        if isinstance(p_, int) and r.random() < 0.2:
+                            out.append(p_ - len(x))  # the same element, addressed from the end
+                        else:
+                            out.append(self.case_key(r, p_, x) if isinstance(p_, str) else p_)
                         x = x[p_]
                     ops.append(["findkey", out])
                     continue
@@ -366,7 +369,7 @@ class C18(core.Check):
                 if pp not in x:
                     return None, False
                 x = x.get(pp)
-            elif isinstance(x, list) and isinstance(p, int) and 0 <= p < len(x):
+            elif isinstance(x, list) and isinstance(p, int) and -len(x) <= p < len(x):
                 x = x[p]
             else:
                 return None, False
